@@ -1,7 +1,9 @@
 (* C13 -- An abandoned transaction leaves no trace (sequential part).
    abort = Transaction created, written to with any chunk pattern, dropped without finish(). *)
 From Cas Require Import History.
+From Cas Require Conc.
 From CasProofs Require Import StoreFS StoreInv StoreWrite StoreRead StoreHist.
+From CasProofs Require ConcAbort.
 
 (* the filesystem is unchanged (same files, same directories; only the ghost counter of staging
    names advances), the memory is unchanged, and every call the transaction issued was on its own
@@ -31,3 +33,16 @@ Theorem C13_abort_preserves_state :
       abort m k chunks w = (Ok tt, m, w') /\ wfault w' = None /\ Post H cfg s sg w w' m sg.
 Proof. exact StoreWrite.abort_post. Qed.
 Print Assumptions C13_abort_preserves_state.
+
+(* concurrent clause: in the concurrent model an abandoned transaction touches no shared state
+   (index, intents, CAS, version counter, locks) and no other thread, in every state; so a
+   concurrent or later transaction on the same key is unaffected *)
+Theorem C13_abort_touches_nothing_shared :
+  forall H cmp nops g t ts k c rest,
+    Conc.tget (Conc.g_thr g) t = Some ts -> Conc.t_pc ts = Conc.Idle -> Conc.t_calls ts = Conc.KAbort k c :: rest ->
+    exists g', Conc.cstep H cmp nops g t = Some g'
+      /\ ConcAbort.same_shared g g'
+      /\ Conc.tget (Conc.g_thr g') t = Some (Conc.mkT rest Conc.Idle (Conc.t_res ts ++ [Conc.CUnit]))
+      /\ (forall u, u <> t -> Conc.tget (Conc.g_thr g') u = Conc.tget (Conc.g_thr g) u).
+Proof. exact ConcAbort.abort_step_changes_nothing_shared. Qed.
+Print Assumptions C13_abort_touches_nothing_shared.
